@@ -57,7 +57,8 @@ def main():
         ran.append(f"demo.py on an unchanged copy of /repo: exit {rc_without}")
         rc_p, out_p = sh(f"patch -p1 -s -i {os.path.join(d, 'patch.diff')}", dst)
         if rc_p:
-            print("PATCH FAILED", out_p)
+            print("PATCH FAILED - the stored patch no longer applies to /repo; rebase it first\n", out_p)
+            return 3
         rc_with, out_with = sh("/venv/bin/python demo.py", dst)
         ran.append(f"demo.py on the copy with patch.diff applied: exit {rc_with}")
         rc_t, out_t = sh("/venv/bin/python -m pytest -q -p no:cacheprovider dali/tests", dst)
